@@ -52,9 +52,12 @@ ASSUMPTIONS = [
     "complex-valued models: Hermitian orthonormality, eigh of the Hermitian covariance of the resample, scores = (X - resample mean) . components "
     "(the convention of the model itself, checked by C01), orientation = real part of the Hermitian inner product with the model's mode is non-negative; "
     "HilbertEOF is fitted with padding='none' and its samples are scipy.signal.hilbert of the preprocessed data, re-centred",
+    "backend: the model is fitted on numpy data or on dask arrays (one chunk, chunked along the first sample dim, along the first feature dim; chunking along both "
+    "is a documented refusal of dask's svd and not enumerated) with EOF(compute=True/False); for dask-backed models the second run of clause (e) is a fresh "
+    "bootstrapper on the same data fitted in memory (checks dask_equals_memory_*)",
     "provenance 'refit': every clause is applied to the SECOND fit of one bootstrapper object; clause (e) relates it to a fresh object with the same seed",
 ]
-TALLY_KEYS = ("mclass", "prov", "container", "names", "flags", "shape", "spec", "n_modes", "n_boot", "bseed")
+TALLY_KEYS = ("mclass", "prov", "backend", "mcompute", "container", "names", "flags", "shape", "spec", "n_modes", "n_boot", "bseed")
 TRUSTED = ["model.data['input_data'] as the definition of the model's own preprocessed samples"]
 
 TOL = 1e-7  # member fits run with solver='auto' (randomized on most of these shapes): DESIGN 4.3
@@ -63,6 +66,7 @@ GAP = 1e-3
 NAMES = {"default": ("sample", "feature"), "sf": ("s", "f"), "s_only": ("s", "feature"), "f_only": ("sample", "f")}
 LATS = {1: [40.0], 2: [-30.0, 50.0], 3: [-60.0, 10.0, 75.0]}
 SPLIT = {4: (2, 2), 6: (3, 2), 9: (3, 3), 12: (4, 3)}
+BACKENDS = ("numpy", "dask1", "dask_s", "dask_f")  # in memory; dask with one chunk; chunked along the first sample dim; along the first feature dim
 FLAGS_ALL = ["".join(t) for t in itertools.product("TF", "FT", "FT", "FT")]  # center, standardize, coslat, weights
 
 
@@ -73,12 +77,12 @@ def cases(tier, seed):
     out = []
     seen = set()
 
-    def add(container, names, flags, shape, spec, k, nb, bs, mclass="EOF", prov="fresh"):
+    def add(container, names, flags, shape, spec, k, nb, bs, mclass="EOF", prov="fresh", backend="numpy", mcompute=True):
         n, p = shape
         kk = min(n, p) if k == "max" else k
         if kk > min(n, p):
             return
-        c = dict(model="EOFBootstrapper", mclass=mclass, prov=prov, container=container, names=names, flags=flags, shape=list(shape), spec=spec, n_modes=kk, n_boot=nb, bseed=bs)
+        c = dict(model="EOFBootstrapper", mclass=mclass, prov=prov, backend=backend, mcompute=mcompute, container=container, names=names, flags=flags, shape=list(shape), spec=spec, n_modes=kk, n_boot=nb, bseed=bs)
         key = json.dumps(c, sort_keys=True)
         if key not in seen:
             seen.add(key)
@@ -121,6 +125,16 @@ def cases(tier, seed):
                                     add(cont, nm, fl, shape, spec, k, nb, bs, mclass=mclass)
             add("da", "default", "FFFF", (12, 6), "geometric", 3, 2, 1, mclass=mclass)
             add("da", "default", "TFFF", (6, 4), "geometric", "max", 2, 1, mclass=mclass, prov="refit_other")
+        # F: backend of the model's data - dask-backed (one chunk / chunked along samples / along features) x EOF(compute=...)
+        for backend in BACKENDS[1:]:
+            for mcompute in (True, False):
+                for cont in ("da", "ds", "list"):
+                    if backend == "dask_s" and cont != "da":
+                        continue  # variables/items concatenated along features + chunks along samples = chunked along both axes: documented refusal
+                    for shape, spec, k, nb, bs in (((12, 6), "geometric", 2, 2, 1), ((6, 4), "rank_def", "max", 3, 7)):
+                        add(cont, "default", "TFFF", shape, spec, k, nb, bs, backend=backend, mcompute=mcompute)
+                add("da", "sf", "TTTT", (12, 6), "flat_pair", 2, 2, 0, backend=backend, mcompute=mcompute)
+                add("da2s", "default", "TFFF", (12, 6), "geometric", 1, 2, 7, backend=backend, mcompute=mcompute)
     else:
         for cont in containers:
             for nm in names:
@@ -167,13 +181,31 @@ def cases(tier, seed):
             for prov in ("refit_same", "refit_other"):
                 for cont in ("da", "ds", "list"):
                     add(cont, "default", "TFFF", (6, 4), "geometric", "max", 2, 1, mclass=mclass, prov=prov)
+        for backend in BACKENDS[1:]:
+            for mcompute in (True, False):
+                for cont in containers:
+                    if backend == "dask_s" and cont in ("ds", "list"):
+                        continue  # documented refusal, see quick tier
+                    for nm in ("default", "sf"):
+                        for fl in ("TFFF", "TTTT"):
+                            if nm == "sf" and fl == "TTTT" and cont != "da":
+                                continue
+                            for shape, spec in (((12, 6), "geometric"), ((6, 4), "rank_def"), ((4, 6), "geometric")):
+                                for k in (1, 2, "max"):
+                                    for nb, bs in ((2, 1), (3, 7)):
+                                        if k == 1 and nb == 3:
+                                            continue
+                                        add(cont, nm, fl, shape, spec, k, nb, bs, backend=backend, mcompute=mcompute)
+                add("da", "default", "TFFF", (6, 4), "geometric", 2, 50, 0, backend=backend, mcompute=mcompute)
+                for prov in ("refit_same", "refit_other"):
+                    add("da", "default", "TFFF", (12, 6), "geometric", 2, 2, 1, prov=prov, backend=backend, mcompute=mcompute)
     return out
 
 
 # ----------------------------------------------------------------------------- labelled containers
 
 
-def build(case, seed, salt=0):
+def build(case, seed, salt=0, backend=None):
     """Returns obj, dim, weights and the bijection (pieces / sample spec) between cells and the n x p matrix X0."""
     import pandas as pd
     import xarray as xr
@@ -258,6 +290,18 @@ def build(case, seed, salt=0):
         for pc in pieces:
             grids = np.meshgrid(*[pc["coords"][d] for d in pc["dims"]], indexing="ij")
             clvec[pc["cols"]] = R.sqrt_coslat(grids[pc["dims"].index("lat")].ravel())
+    backend = case.get("backend", "numpy") if backend is None else backend
+    if backend != "numpy":
+        def chunk(o, pc_dims):
+            if backend == "dask1":
+                return o.chunk({d: -1 for d in o.dims})
+            d = sdims[0] if backend == "dask_s" else pc_dims[0]
+            return o.chunk({d: max(1, o.sizes[d] // 2)})
+
+        if cont == "list":
+            obj = [chunk(o, pc["dims"]) for o, pc in zip(obj, pieces)]
+        else:
+            obj = chunk(obj, pieces[0]["dims"])
     return dict(X0=X0, obj=obj, dim=dim, weights=wobj, wvec=wvec_all if use_w else None, clvec=clvec, pieces=pieces, sdims=sdims, sindex=sindex, cont=cont)
 
 
@@ -431,10 +475,11 @@ def _cos(a, b):
     return float(np.vdot(a, b).real / na / nb)
 
 
-def _undetermined(a, b):
-    """orientation of a against b is numerically undetermined under every pairing (with or without conjugate)"""
+def _undetermined(a, b, s0):
+    """orientation of a against b is numerically undetermined under every pairing (with or without conjugate),
+    or one of the two series is zero to rounding (the same threshold clause (d) uses)"""
     na, nb = np.linalg.norm(a), np.linalg.norm(b)
-    if na == 0 or nb == 0:
+    if na <= 1e-6 * s0 or nb <= 1e-6 * s0:
         return True
     return min(abs(np.vdot(a, b)), abs(np.sum(a * b))) / na / nb <= 1e-6
 
@@ -490,8 +535,10 @@ def run_case(case, seed):
     fl = case["flags"]
     sname, fname = NAMES[case["names"]]
     mclass = case.get("mclass", "EOF")
+    dask_backed = case.get("backend", "numpy") != "numpy"
+    rep_name = "dask_equals_memory" if dask_backed else "reproducible"
     prov = case.get("prov", "fresh")
-    feats = dict(container=case["container"], default_names=case["names"] == "default", fitted=mclass, complex=mclass != "EOF", prov=prov)
+    feats = dict(container=case["container"], default_names=case["names"] == "default", fitted=mclass, complex=mclass != "EOF", prov=prov, dask=dask_backed)
     V = []
 
     def bad(check, msg, **extra):
@@ -499,14 +546,19 @@ def run_case(case, seed):
 
     with warnings.catch_warnings():
         warnings.simplefilter("ignore")
-        def new_model():
-            kw = dict(n_modes=k, center=fl[0] == "T", standardize=fl[1] == "T", use_coslat=fl[2] == "T", sample_name=sname, feature_name=fname, solver="full", random_state=3)
+        def new_model(compute=None):
+            kw = dict(compute=case.get("mcompute", True) if compute is None else compute, n_modes=k, center=fl[0] == "T", standardize=fl[1] == "T", use_coslat=fl[2] == "T", sample_name=sname, feature_name=fname, solver="full", random_state=3)
             if mclass == "HilbertEOF":
                 return xe.single.HilbertEOF(padding="none", **kw)
             return getattr(xe.single, mclass)(**kw)
 
         model = new_model()
-        model.fit(B["obj"], dim=B["dim"], weights=B["weights"])
+        try:
+            model.fit(B["obj"], dim=B["dim"], weights=B["weights"])
+        except NotImplementedError as e:
+            if dask_backed and "chunked in one dimension only" in str(e):
+                return dict(outcome="refused:NotImplementedError", nontrivial=False)  # DESIGN 3.4
+            raise
         before = None
         if prov == "refit_same":
             before = model
@@ -517,7 +569,11 @@ def run_case(case, seed):
         Xin = np.asarray(model.data["input_data"].values)
         try:
             run1 = _fit_boot(model, nb, bs, before)
-            run2 = _fit_boot(model, nb, bs)  # always a fresh object: clause (e) relates the judged fit to it
+            if dask_backed:  # clause (e) becomes: the dask-backed model and the same data in memory give the same members for the same seed
+                Bm = build(case, seed, backend="numpy")
+                run2 = _fit_boot(new_model(True).fit(Bm["obj"], dim=Bm["dim"], weights=Bm["weights"]), nb, bs)
+            else:
+                run2 = _fit_boot(model, nb, bs)  # always a fresh object: clause (e) relates the judged fit to it
         except (CaseTimeout, MemoryError):
             raise
         except Exception as e:  # the quantifier covers this model: raising is a violation (signature carries the naming)
@@ -677,7 +733,7 @@ def run_case(case, seed):
         # (e) second run with the same seed
         ev2, tv2, Vb2, Sb2 = F2["ev"][j], float(F2["tv"][j]), F2["Vb"][j], F2["Sb"][j]
         if np.abs(ev2 - ev).max() > TOL_ALG * scale2 or abs(tv2 - tv) > TOL_ALG * scale2:
-            bad("reproducible_resample", "member %d: same seed, explained variance %s then %s" % (j + 1, ev[:4], ev2[:4]))
+            bad(rep_name + "_resample", "member %d: same seed, explained variance %s then %s" % (j + 1, ev[:4], ev2[:4]))
         elif ok_ev:
             for cl in D.clusters(sref, GAP):
                 if cl[-1] >= k:
@@ -685,17 +741,17 @@ def run_case(case, seed):
                 if len(cl) == 1:
                     i = cl[0]
                     ph = 1.0
-                    if _undetermined(Sb[:, i], Sm[:, i]):  # orientation itself undetermined: compare up to a unit factor
+                    if _undetermined(Sb[:, i], Sm[:, i], s0):  # orientation itself undetermined: compare up to a unit factor
                         z = np.vdot(Vb2[:, i], Vb[:, i])
                         ph = z / abs(z) if abs(z) > 0 else 1.0
                     e = np.abs(Vb[:, i] - ph * Vb2[:, i]).max()
                     es = np.abs(Sb[:, i] - ph * Sb2[:, i]).max() / max(s0, 1e-300)
                     if not (e <= 100 * TOL and es <= 100 * TOL):
-                        bad("reproducible_members", "member %d mode %d: same seed, components differ by %.3e, scores by %.3e" % (j + 1, i + 1, e, es))
+                        bad(rep_name + "_members", "member %d mode %d: same seed, components differ by %.3e, scores by %.3e" % (j + 1, i + 1, e, es))
                 else:
                     e = np.abs(Vb[:, cl] @ Vb[:, cl].conj().T - Vb2[:, cl] @ Vb2[:, cl].conj().T).max()
                     if not e <= 100 * TOL:
-                        bad("reproducible_members", "member %d modes %s: same seed, projectors differ by %.3e" % (j + 1, [i + 1 for i in cl], e))
+                        bad(rep_name + "_members", "member %d modes %s: same seed, projectors differ by %.3e" % (j + 1, [i + 1 for i in cl], e))
 
     if found_other and len(found_other) == nb and nb >= 2 and all(all(np.all(h == 1) for h in hits) for hits in found_other):
         bad("without_replacement", "every one of the %d members is an EOF of the identity resample (a permutation of the samples)" % nb)
@@ -712,7 +768,7 @@ def run_case(case, seed):
         violations=V2,
         outcome="violation" if V2 else "ok",
         nontrivial=not V2 and F1["Vb"].size > 0 and F1["Sb"].size > 0,
-        info=dict(k=k, n_boot=nb, prov=prov, fitted=mclass, resample=dig, sign_decided=n_sign, clusters=n_cluster, other_generator=bool(found_other)),
+        info=dict(k=k, n_boot=nb, dask=dask_backed, prov=prov, fitted=mclass, resample=dig, sign_decided=n_sign, clusters=n_cluster, other_generator=bool(found_other)),
     )
 
 
@@ -728,6 +784,8 @@ def vacuity(outcomes, results, tier):
         return "sign alignment was never decidable"
     if sum(r["info"]["clusters"] for r in ok) == 0:
         return "no degenerate cluster was ever compared by subspace"
+    if not any(r["info"].get("dask") for r in ok):
+        return "no dask-backed model was evaluated"
     if not any(r["info"].get("prov") != "fresh" for r in ok):
         return "no second fit of a bootstrapper object was evaluated"
     return None
